@@ -135,6 +135,8 @@ struct World {
     polls: Vec<usize>,
     acts: usize,
     polled_in_step: Vec<usize>,
+    /// inside a call of `Executor::run_until_stalled`
+    in_run: bool,
 }
 
 type W = Rc<RefCell<World>>;
@@ -339,6 +341,28 @@ impl Future for TaskFut {
     type Output = i64;
 
     fn poll(self: Pin<&mut Self>, cx: &mut Context<'_>) -> Poll<i64> {
+        if self.world.borrow().cut {
+            // the run is over (see `cut`); run_until_stalled may still poll
+            return Poll::Pending;
+        }
+        let r = self.poll_inner(cx);
+        let (in_run, cut) = {
+            let wb = self.world.borrow();
+            (wb.in_run, wb.cut)
+        };
+        if in_run && !cut {
+            // inside run_until_stalled nobody else sees this poll return; a
+            // Ready value is sent (and may wake the receiver's task) only
+            // after we return, so no wake_count is observed then
+            let ready = r.is_ready();
+            rec(&self.world, "pe", self.id, 0, "", ready, 0, !ready);
+        }
+        r
+    }
+}
+
+impl TaskFut {
+    fn poll_inner(&self, cx: &mut Context<'_>) -> Poll<i64> {
         let id = self.id;
         let w = &self.world;
         rec(w, "pb", id, 0, "", false, 0, true);
@@ -483,6 +507,7 @@ fn new_world(nchan: usize, src: Source) -> W {
         polls: vec![0],
         acts: 0,
         polled_in_step: Vec::new(),
+        in_run: false,
     };
     Rc::new(RefCell::new(w))
 }
@@ -537,6 +562,38 @@ fn do_step(w: &W) -> bool {
     }
 }
 
+/// One call of `Executor::run_until_stalled`, recorded: "rb" before, "re" with
+/// the returned count after; the polls in between are recorded by the futures.
+fn do_run(w: &W) -> bool {
+    let exec = w.borrow().exec.clone().expect("executor alive");
+    rec(w, "rb", 0, 0, "", false, 0, true);
+    {
+        let mut wm = w.borrow_mut();
+        wm.polled_in_step.clear();
+        wm.in_run = true;
+    }
+    let r = catch(|| exec.run_until_stalled());
+    let polled = {
+        let mut wm = w.borrow_mut();
+        wm.in_run = false;
+        std::mem::take(&mut wm.polled_in_step)
+    };
+    if w.borrow().cut {
+        return false;
+    }
+    match r {
+        Err(msg) => {
+            let t = polled.last().copied().unwrap_or(0);
+            rec(w, "panic", t, 0, &msg.chars().take(60).collect::<String>(), false, 0, false);
+            false
+        }
+        Ok(n) => {
+            rec(w, "re", 0, 0, "", false, n as i64, true);
+            true
+        }
+    }
+}
+
 /// Replays one behaviour of the driver model: external operations and step()
 /// calls in the model's order, task bodies performing the model's actions.
 fn run_behaviour(h: &[Evt], nchan: usize) -> Vec<Evt> {
@@ -561,7 +618,7 @@ fn run_behaviour(h: &[Evt], nchan: usize) -> Vec<Evt> {
     }
     let w = new_world(nchan, Source::Scripts(scripts));
     if let Some(last) = h.last() {
-        if !matches!(last.ev.as_str(), "pe" | "noop" | "stall" | "try") && last.t > 0 {
+        if !matches!(last.ev.as_str(), "pe" | "noop" | "stall" | "try" | "rb" | "re") && last.t > 0 {
             let t = last.t;
             let lastpb = h.iter().rposition(|e| e.ev == "pb" && e.t == t).unwrap_or(0);
             let mut wm = w.borrow_mut();
@@ -570,8 +627,18 @@ fn run_behaviour(h: &[Evt], nchan: usize) -> Vec<Evt> {
             wm.cut_acts = h.len() - 1 - lastpb;
         }
     }
+    let mut in_run = false;
     for e in h {
+        if in_run {
+            // events inside a run_until_stalled call are not commands
+            in_run = e.ev != "re";
+            continue;
+        }
         let go = match (e.ev.as_str(), e.t) {
+            ("rb", _) => {
+                in_run = true;
+                do_run(&w)
+            }
             ("spawn", 0) => {
                 do_spawn(&w, 0, e.b);
                 true
@@ -633,6 +700,9 @@ fn run_random(sd: u64, p: &RandParams) -> Vec<Evt> {
             do_kick(&w, 0, can_kick[rng.gen_range(0..can_kick.len())])
         } else if x < 22 && !can_try.is_empty() {
             do_try(&w, can_try[rng.gen_range(0..can_try.len())])
+        } else if x < 40 {
+            stalled += 1;
+            do_run(&w)
         } else {
             let g = do_step(&w);
             if w.borrow().events.last().map(|e| e.ev == "stall").unwrap_or(false) {
@@ -640,7 +710,7 @@ fn run_random(sd: u64, p: &RandParams) -> Vec<Evt> {
             }
             g
         };
-        if !go || stalled >= 3 {
+        if !go || stalled >= 4 {
             break;
         }
     }
